@@ -140,6 +140,16 @@ def _random_case(rng, big=False):
         probes.append(p)
     if sum(len(p['times']) for p in probes) < 2:
         probes[0] = _probe([1, 1], rng)
+    if rng.random() < 0.08:
+        # cluster ids reaching the top of the uint16 range in one probe: the merged id range ends around 65535
+        p = rng.choice(probes)
+        if p['clu']:
+            top = rng.choice([65535, 65534, 65536 - len(probes), 65530, 70000]) - max(p['clu'])
+            p['clu'] = [c + top if c == max(p['clu']) else c for c in p['clu']]
+            if max(p['clu']) > 65535 and p['cdt'] == 'uint16':
+                p['cdt'] = 'int32'
+            for m in p['meta'].values():
+                m['rows'] = [r for r in m['rows'] if r[0] <= max(p['clu'])]
     return {'kind': 'merge', 'inp': {'rate': rng.choice([100.0, 128.0, 30000.0]), 'probes': probes}}
 
 
@@ -230,6 +240,13 @@ def _corpus(rng):
     add([dict(B1, clu=[0, 1], tdt='int32'), dict(B1, clu=[0, 1], tdt='uint64', times=[3, 2 ** 31 + 5])])
     add([dict(B1, clu=[0, 1], tdt='int32', times=[1, 2 ** 31 - 1]), dict(B1, clu=[0, 1], tdt='uint32', times=[2, 2 ** 31 - 1])])
     add([dict(B1, clu=[0, 1], tdt='uint32', times=[1, 2 ** 32 - 1]), dict(B1, clu=[0, 1], tdt='uint64', times=[2, 2 ** 32])])
+    # a SIGNED first dtype is promoted to the smallest signed type that holds the value (boundaries at powers of two:
+    # 2^31 with int32 times, 2^15 with int16 cluster ids; a value beyond uint32 must not end in float64; int8 -> int16)
+    add([dict(B1, clu=[0, 1], tdt='int32'), dict(B1, clu=[0, 1], tdt='int64', times=[3, 2 ** 31])])
+    add([dict(B1, clu=[0, 1], tdt='int32'), dict(B1, clu=[0, 1], tdt='int64', times=[3, 2 ** 32 + 1])])
+    add([dict(B1, cdt='int16', clu=[0, 32760]), dict(B1, cdt='int16', clu=[0, 6])])
+    add([dict(B1, cdt='int16', clu=[0, 32760]), dict(B1, cdt='int16', clu=[0, 7])])
+    add([dict(B1, cdt='int8', clu=[0, 100]), dict(B1, cdt='int32', clu=[0, 32666])])
     # a probe without spikes: np.max raises (error exit of the model)
     add([P0, {'times': [], 'amps': [], 'tmpl': [], 'clu': [], 'meta': {}}])
     for c in cases:
@@ -317,6 +334,8 @@ def run_case(case):
         for name in dts:
             if name not in DT:
                 raise ValueError('merged file of dtype %s' % name)
+        if not np.issubdtype(ld('cluster_probes.npy').dtype, np.integer):
+            raise ValueError('cluster_probes.npy of dtype %s' % ld('cluster_probes.npy').dtype.name)
         obs = {
             'dts': dts,
             'templates': ([[[D.tok(float(x)) for x in row] for row in tm] for tm in T.astype(np.float64).tolist()]
